@@ -48,11 +48,9 @@ class Ctx:
         # every job runs in a fresh fork of this process (maxtasksperchild=1, one item per task): whatever process-level
         # state the code under test keeps (caches, module globals) starts from the parent's state for every job, so a
         # complete run is a deterministic function of (tree, tier, seed) however the pool schedules the jobs
-        mp = multiprocessing.get_context('fork')
         njobs = min(len(items), self.ncpu * 6)
         chunks = [items[i::njobs] for i in range(njobs)]       # deterministic partition, independent of pool timing
-        with mp.Pool(min(self.ncpu, njobs), maxtasksperchild=1) as pool:
-            parts = pool.map(_run_chunk, [(func, c) for c in chunks], 1)
+        parts = _fork_map(func, chunks, min(self.ncpu, njobs))
         out = [None] * len(items)
         for i, part in enumerate(parts):
             out[i::njobs] = part
@@ -65,6 +63,80 @@ class Ctx:
 def _run_chunk(arg):
     func, chunk = arg
     return [func(x) for x in chunk]
+
+
+def _fork_map(func, chunks, nproc):
+    """[[func(x) for x in chunk] for chunk in chunks], every chunk in its own fork of this process, at most nproc at a time.
+    Plain fork + pipe + select from the (single-threaded) caller: multiprocessing.Pool with maxtasksperchild forks
+    replacement workers from a helper THREAD, and a child forked while another thread holds one of the pool's locks waits
+    for ever (seen as an occasional run in which every worker idles)"""
+    import pickle
+    import select
+    results = [None] * len(chunks)
+    pending = list(enumerate(chunks))
+    running = {}
+    failure = None
+    try:
+        while pending or running:
+            while pending and len(running) < nproc and failure is None:
+                idx, chunk = pending.pop(0)
+                rfd, wfd = os.pipe()
+                sys.stdout.flush()
+                sys.stderr.flush()
+                pid = os.fork()
+                if pid == 0:
+                    code = 0
+                    try:
+                        os.close(rfd)
+                        for fd in list(running):
+                            try:
+                                os.close(fd)
+                            except OSError:
+                                pass
+                        try:
+                            payload = pickle.dumps(('ok', _run_chunk((func, chunk))))
+                        except BaseException:
+                            payload = pickle.dumps(('err', traceback.format_exc()))
+                        with os.fdopen(wfd, 'wb') as f:
+                            f.write(payload)
+                        sys.stdout.flush()
+                        sys.stderr.flush()
+                    except BaseException:
+                        code = 1
+                    finally:
+                        os._exit(code)
+                os.close(wfd)
+                running[rfd] = [idx, pid, []]
+            if not running:
+                break
+            for fd in select.select(list(running), [], [])[0]:
+                data = os.read(fd, 1 << 20)
+                if data:
+                    running[fd][2].append(data)
+                    continue
+                idx, pid, buf = running.pop(fd)
+                os.close(fd)
+                os.waitpid(pid, 0)
+                try:
+                    kind, val = pickle.loads(b''.join(buf))
+                except Exception:
+                    kind, val = 'err', 'worker %d died without a result' % pid
+                if kind == 'ok':
+                    results[idx] = val
+                elif failure is None:
+                    failure = val
+                    pending = []
+    finally:
+        for fd, (idx, pid, buf) in list(running.items()):
+            try:
+                os.kill(pid, 9)
+                os.waitpid(pid, 0)
+                os.close(fd)
+            except OSError:
+                pass
+    if failure is not None:
+        raise RuntimeError("worker failed:\n" + failure)
+    return results
 
 
 def load_known():
@@ -98,7 +170,19 @@ def check_evidence_shape(ev):
         assert c['states'] >= 1 and c['transitions'] >= 1 and c['traces_validated_against_impl'] >= 0 and c['samples']
 
 
+def _debug_hooks():
+    # `kill -USR1 <pid>` makes any runner / worker process dump the stacks of all its threads to stderr
+    try:
+        import faulthandler
+        import signal
+        path = os.environ.get('VERIF_STACKS')
+        faulthandler.register(signal.SIGUSR1, file=(open(path, 'a') if path else sys.__stderr__), all_threads=True, chain=False)
+    except Exception:
+        pass
+
+
 def main():
+    _debug_hooks()
     ap = argparse.ArgumentParser()
     ap.add_argument('pid')
     ap.add_argument('--tier', default=os.environ.get('VERIF_TIER', 'quick'), choices=['quick', 'thorough'])
@@ -181,8 +265,9 @@ def main():
             if rerun_keys is None:
                 import subprocess
                 env = dict(os.environ, VERIF_CONFIRM_RUN='1')
+                dbg = os.environ.get('VERIF_CONFIRM_STDERR')
                 r = subprocess.run([sys.executable, '-m', 'vf.run', pid, '--tier', args.tier, '--no-evidence'], env=env,
-                                   capture_output=True, text=True)
+                                   stdout=subprocess.PIPE, stderr=(open(dbg, 'a') if dbg else subprocess.PIPE), text=True)
                 rerun_keys = {l[len('FOUND key='):] for l in r.stdout.splitlines() if l.startswith('FOUND key=')}
             if key not in rerun_keys:
                 print("HARNESS-ERROR %s: violation %s reproduced neither by its isolated replay (%r) nor by a second complete "
